@@ -33,6 +33,29 @@ def run(c):
             name = vlib.unhex(d["request"].split(" ")[1]) if " " in d["request"] else d["request"]
             c.violation("disagree:" + name, "model/implementation disagreement on name %r: impl=%r model=%r" % (name, d["impl"][:150], d["model"][:150]),
                         {"kind": "input", "input": name, "impl": d["impl"], "model": d["model"], "correspondence": "rkh c07 | rinkmodel eval"}, found=False)
+    # 3. names while a substance block is being loaded: the block's own names come first (temporaries)
+    from checks import loadcommon as lc
+    scens = lc.run_scenarios(c, "c07")
+    lstats = {}
+    for s in scens or []:
+        lc.check_crash(c, "C07", s)
+        lc.check_correspondence(c, s, lstats)
+        if s.id in ("shadow-unit", "shadow-plural") and s.impl_errors():
+            c.violation("shadow-errors:" + s.id, "C07: %s reports %s" % (s.desc, s.impl_errors()[:3]), lc.replay_body(s), found=True)
+    # the expected values of the shadowing scenarios, stated independently of the model (inside a block the
+    # property key names input/output, the output name names the output when the input is 1)
+    want = {"shadow-unit": {("thing", "double"): "20/1", ("thing", "dens"): "3/1"}, "shadow-plural": {("planet", "spin"): "2/1", ("planet", "ratio"): "1/10"},
+            "shadow-bundled": {("c07planet", "density"): "3/1", ("c07planet", "spin"): "1/10"}}
+    for s in scens or []:
+        for l in s.impl:
+            p = l.split(" ")
+            if p[0] == "prop":
+                key = (lc.unhex(p[1]), lc.unhex(p[2]))
+                w = want.get(s.id, {}).get(key)
+                if w is not None and p[6] != w:
+                    c.violation("shadow:%s:%s" % (s.id, key[1]), "C07: property %s of %s evaluates to %s, expected %s: a name of the substance block did not shadow the database" % (key[1], key[0], p[6], w),
+                                lc.replay_body(s, {"property": key[1], "expected": w, "got": p[6]}), found=True)
+    c.coverage["loader_scenarios"] = lstats
     c.coverage.update({
         "evaluations": st["names"], "distinct_nontrivial": st["resolved"],
         "rule": "every prefix+unit[+s] string over all %d prefixes x %d unit and base-unit names of the bundled database (%s), plus non-names; lookup value, canonical name and the value of the canonical name are compared with the Lean model; the resolution-order laws are recomputed without rink's lookup code" % (
